@@ -1,6 +1,7 @@
 // REPLAY_SOURCES: opm/input/eclipse/Schedule/Action/ActionValue.cpp
 // REPLAY_SEARCH (without a counterexample: every token type 0..13 as the operator, over every ordered pair of 7 values
-// including equal ones, one ulp apart, signed zeros and large magnitudes, through the public Value::eval_cmp)
+// including equal ones, one ulp apart, signed zeros and large magnitudes, through the public Value::eval_cmp; well lists of
+// up to 3 wells over 4 values, the 6 comparison operators and 4 right hand sides)
 // Replays a refuted obligation of unit compare through the public API: Value(lhs).eval_cmp(op, Value(rhs)).
 #include "replay.hpp"
 #include <opm/input/eclipse/Schedule/Action/ActionValue.hpp>
@@ -26,10 +27,44 @@ static int one(const Replay& r, int op, double a, double b, bool final) {
     if (g != e) return r.verdict(false, w.str());
     return final ? r.verdict(true, w.str()) : 0;
 }
+// well-level left side with up to 3 wells: the matching wells must be exactly those whose value satisfies the comparison
+static int wellLists(const Replay& r)
+{
+    const std::vector<double> v = { -1.0, 0.0, 1.0, 2.0 };
+    const char* names[] = { "A", "B", "C" };
+    for (int op = 4; op <= 9; ++op) for (double rhs : v) for (int n = 1; n <= 3; ++n) {
+        int idx[3] = {0, 0, 0};
+        for (long code = 0; code < (n == 1 ? 4 : n == 2 ? 16 : 64); ++code) {
+            idx[0] = code & 3; idx[1] = (code >> 2) & 3; idx[2] = (code >> 4) & 3;
+            Value lhs(names[0], v[idx[0]]);
+            for (int j = 1; j < n; ++j) lhs.add_well(names[j], v[idx[j]]);
+            bool any = false; std::ostringstream w; w.precision(17);
+            w << "wells";
+            for (int j = 0; j < n; ++j) { w << " " << names[j] << "=" << v[idx[j]]; any = any || expect(op, v[idx[j]], rhs) == 1; }
+            w << " compared by token type " << op << " with " << rhs << ": ";
+            try {
+                const auto res = lhs.eval_cmp(static_cast<TokenType>(op), Value(rhs));
+                if (res.conditionSatisfied() != any) { w << "condition is " << (any ? "false" : "true") << ", the contract requires " << (any ? "true" : "false"); return r.verdict(false, w.str()); }
+                for (int j = 0; j < n; ++j) {
+                    const bool e = expect(op, v[idx[j]], rhs) == 1;
+                    if (res.matches().hasWell(names[j]) != e) { w << "well " << names[j] << (e ? " is not listed but matches" : " is listed but does not match"); return r.verdict(false, w.str()); }
+                }
+            }
+            catch (const std::exception& e) { w << "raises " << e.what(); return r.verdict(false, w.str()); }
+        }
+    }
+    return -1;
+}
 int main(int argc, char** argv)
 {
     Replay r(argc, argv);
+    if (r.is("evalWellComparisons/")) {
+        // the counterexample's well list is unbounded data; the obligation is demonstrated by a search over well lists instead
+        const int rc = wellLists(r);
+        return rc >= 0 ? rc : r.verdict(true, "every list of up to 3 wells over 4 values, 6 operators and 4 right hand sides gives exactly the matching wells");
+    }
     if (r.is("bounded_native_search")) {
+        { const int rc = wellLists(r); if (rc >= 0) return rc; }
         const std::vector<double> v = { -1.0e30, -1.0, -0.0, 0.0, 1.0, std::nextafter(1.0, 2.0), 1.0e30 };
         for (int op = 0; op <= 13; ++op) for (double a : v) for (double b : v)
             if (one(r, op, a, b, false)) return 1;
